@@ -314,6 +314,9 @@ fn programs(family: &str) -> Vec<(String, Outcome)> {
             p(&format!("{}start :: fn do\n    a := A.Y\n    case a do\n        X v ->\n            print(v)\n        end\n        else\n            e := 3\n        end\n    end\n    print(e)\nend\n", enum_a), Outcome::Reject);
             p("start :: fn do\n    f :: fn p: int do\n        q := p\n    end\n    f(1)\n    print(p)\nend\n", Outcome::Reject);
             p("start :: fn do\n    f :: fn p: int do\n        q := p\n    end\n    f(1)\n    print(q)\nend\n", Outcome::Reject);
+            // locals of a global's initialiser are locals (also when the initialiser is not a function)
+            p("limit :: 10\nbonus :: if limit < 20 do\n    extra :: 5\n    extra + 1\nelse\n    0\nend\nstart :: fn do\n    print(bonus)\nend\n", Outcome::Accept);
+            p("limit :: 10\nbonus :: if limit < 20 do\n    extra :: 5\n    extra + 1\nelse\n    0\nend\nstart :: fn do\n    print(extra)\nend\n", Outcome::Reject);
             p("start :: fn do\n    print(z)\n    z := 1\nend\n", Outcome::Reject);
             p("start :: fn do\n    b :: b + 1\nend\n", Outcome::Reject);
             p("start :: fn do\n    y := 1\n    if true do\n        y := 2\n        print(y)\n    end\n    print(y)\nend\n", Outcome::Accept);
